@@ -101,6 +101,10 @@ class InterpBuiltins:
             return ClassV(v.cls)
         if isinstance(v, EnumMember):
             return ClassV(v.cls)
+        if v is None:
+            return Builtin('NoneType')
+        if isinstance(v, ObjV) or (isinstance(v, SV) and isinstance(v.ty, TOpt)):
+            return TypeOfV(v)     # symbolic dynamic type: only comparable with classes
         raise Unsupported(f'type() of {type(v).__name__}')
 
     def bi_bool(self, args, kw, line):
@@ -808,3 +812,26 @@ class InterpBuiltins:
             raise Unsupported(f'assume() outside a @lemma body (line {line})')
         self.run.assume(self.as_bool(self.truthy(args[0])))
         return None
+    def bi_narrow(self, args, kw, line):
+        """narrow(obj, Class): the same object viewed with a more precise static class (specifications only; the clause
+        guards it with `type(obj) is Class` / isinstance)"""
+        obj, c = args
+        if not isinstance(obj, ObjV) or not isinstance(c, ClassV):
+            raise Unsupported('narrow(object, Class)')
+        return ObjV(obj.ref, c.name, obj.heap)
+
+    def _ghost(self, args, rng, ty):
+        """ghost_bool('name', x, ...) / ghost_int('name', x, ...): uninterpreted (specification-only) function of its
+        arguments; contracts give it a meaning through defining clauses"""
+        name, vals = args[0], args[1:]
+        if not isinstance(name, str):
+            raise Unsupported('ghost function name must be a literal')
+        ts = [self.lift(v) for v in vals]
+        f = z3.Function('ghost:' + name, *[t.sort() for t in ts], rng)
+        return SV(f(*ts), ty)
+
+    def bi_ghost_bool(self, args, kw, line):
+        return self._ghost(args, B, BOOL)
+
+    def bi_ghost_int(self, args, kw, line):
+        return self._ghost(args, I, INT)
